@@ -1037,6 +1037,20 @@ def tr_dyn():
         st = s
         while st.get("kind") in WRAPPERS:
             st = kids(st)[0]
+        if st.get("kind") == "IfStmt" and len(kids(st)) == 2:
+            # if (!_next_modulation.empty()) _calcKick();
+            c, b = kids(st)
+            while c.get("kind") in WRAPPERS + ("ImplicitCastExpr",):
+                c = kids(c)[0]
+            inner = kids(b) if b.get("kind") == "CompoundStmt" else [b]
+            ok = c.get("kind") == "UnaryOperator" and c.get("opcode") == "!" and \
+                [m.get("name") for m in walk(c) if m.get("kind") == "MemberExpr"] == ["empty", "_next_modulation"] and \
+                len(inner) == 1 and inner[0].get("kind") == "CXXMemberCallExpr" and kids(inner[0])[0].get("name") == "_calcKick" and \
+                len([m for m in walk(kids(inner[0])[0]) if m.get("kind") == "MemberExpr"]) == 1
+            if not ok:
+                raise TranslateError("DynamicRFKickMap::apply: conditional statement that is not `if (!_next_modulation.empty()) _calcKick();`")
+            acts.append("DCalcKickIfMore")
+            continue
         if st.get("kind") != "CXXMemberCallExpr":
             raise TranslateError("DynamicRFKickMap::apply: statement of kind %s" % st.get("kind"))
         me = kids(st)[0]
